@@ -35,6 +35,8 @@ type PlanReader struct {
 	off   int
 	calls int
 	Reads int
+	// EOFReturned: the consumer asked for more after all data had been delivered
+	EOFReturned bool
 }
 
 func (r *PlanReader) Read(p []byte) (int, error) {
@@ -45,6 +47,7 @@ func (r *PlanReader) Read(p []byte) (int, error) {
 	}
 	if r.off >= len(r.Data) {
 		r.log(len(p), 0, io.EOF)
+		r.EOFReturned = true
 		return 0, io.EOF
 	}
 	n := len(p)
